@@ -5,7 +5,9 @@ package main
 import (
 	"encoding/json"
 	"fmt"
+	"strconv"
 	"strings"
+	"time"
 
 	"github.com/gocql/gocql"
 	"verifharness/vh"
@@ -163,6 +165,48 @@ func execDecode(w []string, hx func(int) []byte) (string, bool) {
 			panic("bad-op: destination kind")
 		}
 		return stat(err) + " " + rep, true
+	case "ucqlt":
+		typ := gocql.TypeUUID
+		if w[1] == "timeuuid" {
+			typ = gocql.TypeTimeUUID
+		} else if w[1] != "uuid" {
+			panic("bad-op: column type")
+		}
+		ps, err1 := strconv.ParseInt(w[2], 10, 64)
+		pn, err2 := strconv.ParseInt(w[3], 10, 64)
+		if err1 != nil || err2 != nil {
+			panic("bad int")
+		}
+		var data []byte
+		if w[4] != "null" {
+			data = hx(4)
+		}
+		t := time.Unix(ps, pn)
+		err := gocql.Unmarshal(gocql.NewNativeType(4, typ, ""), data, &t)
+		return fmt.Sprintf("%s %d.%d", stat(err), t.Unix(), t.Nanosecond()), true
+	case "mcql":
+		var v interface{}
+		switch w[1] {
+		case "uuid":
+			v = uuidOf(hx(2))
+		case "arr":
+			v = [16]byte(uuidOf(hx(2)))
+		case "bytes":
+			var b []byte
+			if w[2] != "nil" {
+				b = hx(2)
+			}
+			v = b
+		case "str":
+			v = string(hx(2))
+		default:
+			panic("bad-op: value kind")
+		}
+		b, err := gocql.Marshal(gocql.NewNativeType(4, gocql.TypeUUID, ""), v)
+		if err != nil {
+			return "err", true
+		}
+		return "ok " + vh.Hex(b), true
 	case "useq":
 		u := uuidOf(hx(1))
 		info := gocql.NewNativeType(4, gocql.TypeUUID, "")
@@ -569,6 +613,55 @@ func runDecode(r *vh.Rng, out *vh.Out, mult int) {
 		a := exec(op)
 		res(a)
 		out.Case(op, a, "ucql/"+col+"/"+kind+"/"+dcls+"/"+okerr(a), true)
+	}
+	// timeuuid / uuid columns read into a *time.Time that already holds an instant; CQL marshal of every value kind
+	for i := 0; i < 600*mult; i++ {
+		col := []string{"timeuuid", "timeuuid", "uuid"}[r.Intn(3)]
+		sec, ns, _ := genTime(r)
+		if r.Bool() {
+			sec = timeBase + int64(r.U64()%uint64(maxSec-timeBase))
+		}
+		var data, dcls string
+		switch r.Intn(8) {
+		case 0:
+			data, dcls = "null", "null"
+		case 1:
+			data, dcls = vh.Hex(r.Bytes(r.Intn(20))), "random-length"
+		case 2:
+			data, dcls = vh.Hex(genUUIDBytes(r)), "any-version"
+		default:
+			u := gocql.TimeUUIDWith(gocql.VerifGetTimestamp(time.Unix(sec, ns)), genClock(r), r.Bytes(6))
+			data, dcls = vh.Hex(u[:]), "v1"
+		}
+		psec, pns, _ := genTime(r)
+		if r.Intn(4) == 0 {
+			psec, pns = 0, 0
+		}
+		op := fmt.Sprintf("ucqlt %s %d %d %s", col, psec, pns, data)
+		a := exec(op)
+		out.Case(op, a, "ucqlt/"+col+"/"+dcls+"/"+okerr(a), true)
+
+		kind := []string{"uuid", "arr", "bytes", "str"}[r.Intn(4)]
+		var c string
+		switch kind {
+		case "uuid", "arr":
+			c = vh.Hex(genUUIDBytes(r))
+		case "bytes":
+			switch r.Intn(5) {
+			case 0:
+				c = "nil"
+			case 1:
+				c = vh.Hex(r.Bytes(r.Intn(34)))
+			default:
+				c = vh.Hex(genUUIDBytes(r))
+			}
+		default:
+			s, _ := genText(r)
+			c = vh.Hex([]byte(s))
+		}
+		op = fmt.Sprintf("mcql %s %s", kind, c)
+		a = exec(op)
+		out.Case(op, a, "mcql/"+kind+"/"+okerr(a), true)
 	}
 	// sequences on ONE destination: decode a, then b, then an invalid text, then c, ...
 	for i := 0; i < 800*mult; i++ {
